@@ -326,7 +326,11 @@ func appendData[T any](a, b map[string][]T, aLen, bLen int, nilVal func() T) map
 	finalData := make(map[string][]T)
 
 	for atr, data := range a {
-		finalData[atr] = data
+		// Copy: data is shared with the mesh it came from, appending to it
+		// could write into spare capacity another mesh already uses.
+		combined := make([]T, len(data), len(data)+bLen)
+		copy(combined, data)
+		finalData[atr] = combined
 
 		if _, ok := b[atr]; !ok {
 			for i := 0; i < bLen; i++ {
@@ -359,8 +363,17 @@ func (m Mesh) Append(other Mesh) Mesh {
 	finalV3Data := appendData(m.v3Data, other.v3Data, mAtrLength, oAtrLength, func() vector3.Vector[float64] { return vector3.Zero[float64]() })
 	finalV4Data := appendData(m.v4Data, other.v4Data, mAtrLength, oAtrLength, func() vector4.Vector[float64] { return vector4.Zero[float64]() })
 
-	finalTris := append(m.indices, other.indices...)
-	finalMaterials := append(m.materials, other.materials...)
+	// Build fresh slices: appending to (and then offsetting) m's own slices
+	// would write into backing arrays shared with other meshes derived from m.
+	finalTris := make([]int, 0, len(m.indices)+len(other.indices))
+	finalTris = append(finalTris, m.indices...)
+	finalTris = append(finalTris, other.indices...)
+	var finalMaterials []MeshMaterial
+	if len(m.materials)+len(other.materials) > 0 {
+		finalMaterials = make([]MeshMaterial, 0, len(m.materials)+len(other.materials))
+		finalMaterials = append(finalMaterials, m.materials...)
+		finalMaterials = append(finalMaterials, other.materials...)
+	}
 	for i := len(m.indices); i < len(finalTris); i++ {
 		finalTris[i] += mAtrLength
 	}
